@@ -69,7 +69,7 @@ func c29Opts(r *gen.R) gen.DiagramOpts {
 
 func genC29(seed int64, tier string, emit func(run.Case)) {
 	r := gen.New(seed)
-	n := tierN(tier, 160, 8000)
+	n := tierN(tier, 120, 8000)
 	pads := []int64{0, 0, 1, 7, 20, 100, -1}
 	for i := 0; i < n; i++ {
 		q := r.Sub(i)
